@@ -85,6 +85,10 @@ type scanner struct {
 	// in jApi).
 	lengthComputing bool
 
+	// afterFirstSlash the slash that begins a comment has been read, the byte
+	// that tells which kind of comment has not.
+	afterFirstSlash bool
+
 	hasTrailingCharacters bool
 }
 
@@ -194,6 +198,12 @@ func (s *scanner) Next() (lexeme.LexEvent, error) {
 
 func (s *scanner) processTail() (lexeme.LexEvent, error) {
 	if s.stack.Len() == 0 {
+		if s.afterFirstSlash && !s.lengthComputing {
+			// "[1] /": the text ends inside the beginning of a comment.
+			err := errors.NewDocumentError(s.file, errors.ErrUnexpectedEOF)
+			err.SetIndex(s.dataSize - 1)
+			return lexeme.LexEvent{}, err
+		}
 		return lexeme.LexEvent{}, errEOS
 	}
 
@@ -678,6 +688,7 @@ func (s *scanner) stateNul(c byte) (state, error) {
 }
 
 func (s *scanner) stateAnyAnnotationStart(c byte) (st state, err error) {
+	s.afterFirstSlash = false
 	switch c {
 	case '/':
 		s.annotation = true
@@ -832,5 +843,6 @@ func (s *scanner) switchToAnnotation() error {
 	}
 	s.returnToStep.Push(s.step)
 	s.step = s.stateAnyAnnotationStart
+	s.afterFirstSlash = true
 	return nil
 }
